@@ -313,4 +313,4 @@ pub fn certificate_files_exists(fm: &FileManager) -> bool {
 
 #[cfg(feature = "breard_r_acmed_verif")]
 #[path = "/verif/probe/storage_probe.rs"]
-mod verif;
+pub(crate) mod verif;
